@@ -57,6 +57,8 @@ def cases(tier, seed):
             if q and n > 4:
                 continue
             out.append(dict(layer='L1', no_validate=True, fn='min_point_rdp', n=n, nt=nt))
+    # the short special-curve slices first: under a budget cut (loaded machine) the bulk enumeration is what gets skipped
+    out.sort(key=lambda c: 0 if isinstance(c.get('curve'), str) else 1)
     return out
 
 
